@@ -52,6 +52,14 @@ func main() {
 		os.Exit(engine.TranspMain(os.Args[2:]))
 	case "gen":
 		os.Exit(cmdGen(os.Args[2:]))
+	case "outs":
+		fs := flag.NewFlagSet("outs", flag.ExitOnError)
+		prop := fs.String("prop", "C05", "")
+		seed := fs.Uint64("seed", 1, "")
+		count := fs.Uint64("count", 1000, "")
+		fs.Parse(os.Args[2:])
+		engine.DebugOuts(*prop, *seed, *count)
+		os.Exit(0)
 	default:
 		fmt.Fprintln(os.Stderr, "unknown sub-command", os.Args[1])
 		os.Exit(2)
